@@ -99,4 +99,91 @@ def insertSorted (p : Iv) : List Iv → List Iv
 
 def sortByLo (l : List Iv) : List Iv := l.foldr insertSorted []
 
+/-! ### Sets of sets: `ip_set` plugins with `sets:` references
+
+A configuration is a list of `ip_set` plugins in the order they are built; every reference is the
+index of a plugin built earlier. A built plugin is what it answers: `Nat → Bool`. -/
+
+/-- One `ip_set` plugin: the stored prefixes of its own rules (`ips`, `files`) and the sets named under `sets:`. -/
+structure SetDef where
+  own : List Prefix
+  refs : List Nat
+  deriving Repr
+
+/-- The plugin's own `netlist.List` after `Sort`. -/
+def ownMatch (own : List Prefix) (a : Nat) : Bool := contains (sortByLo (own.map Iv.ofPrefix)) a
+
+/-- `MatcherGroup.Match`: the members are asked in order, the first `true` wins, otherwise `false`. -/
+def groupMatch (ms : List (Nat → Bool)) (a : Nat) : Bool := ms.any (fun m => m a)
+
+/-- The loop of `NewIPSet` over `sets:`: every tag appends that plugin's matcher; an unknown tag is an error. -/
+def addSets (built : List (Nat → Bool)) : List (Nat → Bool) → List Nat → Option (List (Nat → Bool))
+  | mg, [] => some mg
+  | mg, j :: js => match built[j]? with
+    | none => none
+    | some m => addSets built (mg ++ [m]) js
+
+/-- `NewIPSet`: the own list is the first member when it is not empty, then the referenced sets. -/
+def newIPSet (built : List (Nat → Bool)) (d : SetDef) : Option (Nat → Bool) :=
+  (addSets built (if d.own.isEmpty then [] else [ownMatch d.own]) d.refs).map groupMatch
+
+/-- Building the plugins of a configuration in order. -/
+def buildSets : List (Nat → Bool) → List SetDef → Option (List (Nat → Bool))
+  | built, [] => some built
+  | built, d :: ds => match newIPSet built d with
+    | none => none
+    | some m => buildSets (built ++ [m]) ds
+
+/-- The property's right-hand side for a set of sets: every prefix loaded into it, its own and
+(transitively) those of the sets it references. -/
+def loadedInto (loaded : List (List Prefix)) (d : SetDef) : List Prefix :=
+  d.own ++ d.refs.flatMap (fun j => loaded[j]?.getD [])
+
+def loadedAll : List (List Prefix) → List SetDef → List (List Prefix)
+  | loaded, [] => loaded
+  | loaded, d :: ds => loadedAll (loaded ++ [loadedInto loaded d]) ds
+
+/-! ### Go slices: who shares a backing array with whom
+
+`IPSet.mg` is a Go slice: a view `(array, len, cap)` of a backing array. `append(s, x)` writes into the
+array of `s` when `len < cap` - visible to every other slice of that array - and copies to a new array
+otherwise. `GetIPMatcher` hands out the plugin's own slice, so whether a later `NewIPSet` can disturb an
+earlier plugin is a question about arrays, not about values. -/
+
+structure Slice where
+  arr : Nat
+  len : Nat
+  cap : Nat
+  deriving DecidableEq, Repr
+
+/-- Backing arrays by number; `next` = the number the next allocation gets. -/
+structure Heap (α : Type) where
+  cell : Nat → Nat → Option α
+  next : Nat
+
+def nilSlice : Slice := ⟨0, 0, 0⟩
+
+/-- What a slice shows now. -/
+def Heap.read {α : Type} (h : Heap α) (s : Slice) : List (Option α) := (List.range s.len).map (h.cell s.arr)
+
+/-- Go's `append(s, x)`; `grow` = the spare capacity a new array gets (whatever the runtime chooses). -/
+def Heap.append {α : Type} (grow : Nat → Nat) (h : Heap α) (s : Slice) (x : α) : Heap α × Slice :=
+  if s.len < s.cap then
+    ({ h with cell := fun a i => if a = s.arr ∧ i = s.len then some x else h.cell a i }, { s with len := s.len + 1 })
+  else
+    ({ cell := fun a i => if a = h.next then (if i < s.len then h.cell s.arr i else if i = s.len then some x else none) else h.cell a i,
+       next := h.next + 1 },
+     ⟨h.next, s.len + 1, s.len + 1 + grow s.len⟩)
+
+/-- `p.mg = append(p.mg, x)` for every `x` of `xs`, in order. -/
+def Heap.appendAll {α : Type} (grow : Nat → Nat) (h : Heap α) (s : Slice) : List α → Heap α × Slice
+  | [] => (h, s)
+  | x :: xs => let r := h.append grow s x; Heap.appendAll grow r.1 r.2 xs
+
+/-- `NewIPSet` as far as slices go: `p := &IPSet{}` (a nil slice), then only self-appends. The members may
+depend on the slices of the plugins built so far (a referenced plugin hands out its own slice). -/
+def Heap.buildAll {α : Type} (grow : Nat → Nat) (h : Heap α) (built : List Slice) : List (List Slice → List α) → Heap α × List Slice
+  | [] => (h, built)
+  | d :: ds => let r := h.appendAll grow nilSlice (d built); Heap.buildAll grow r.1 (built ++ [r.2]) ds
+
 end Model.C13
